@@ -258,10 +258,15 @@ def run_case(rng, tier, case):
     case.key = env.spec_key([spec, plus, split]); case.sample = {'P': gen.abbreviate(spec), 'inert_element': what, 'split': split}; case.spec = {'P': spec, 'P_plus': plus, 'split': split}
     ck = Clock(spec['grid'])
     mip = gen.is_mip(plus)
-    r1 = flow.run_portfolio(spec, split=split)
+    via_json = rng.random() < 0.15
+    if via_json:
+        case.feature('portfolio_from_its_json_form')
+    r1 = flow.run_portfolio(spec, split=split, via_json=via_json)
     if not r1.ok:
+        if via_json and r1.stage == 'json':
+            case.check('window.json_form_usable', False, error=flow.describe_error(r1)); return
         case.reject('P: ' + flow.describe_error(r1)); return
-    r2 = flow.run_portfolio(plus, split=split)
+    r2 = flow.run_portfolio(plus, split=split, via_json=via_json)
     if not r2.ok:
         # P works, P+ (only an out-of-horizon element added) does not: the element is not inert
         case.check('inert.setup_still_works', False, element=what, error=flow.describe_error(r2)); return
@@ -277,6 +282,28 @@ def run_case(rng, tier, case):
             check_takes(case, spec, r1b, ck)
         else:
             case.check('take.second_setup_works', False, error=flow.describe_error(r1b))
+    # (a+) windows are what the asset says NOW: a new portfolio in which one asset has another window, set up on the SAME Timegrid object that the
+    # first portfolio used (what-if run / next delivery period on the same grid object)
+    if not split and rng.random() < 0.3:
+        movable = [a for a in spec['assets'] if a['type'] in ('SimpleContract', 'Contract', 'Transport', 'ExtendedTransport', 'Storage', 'MultiCommodityContract')
+                   and not a.get('freq') and not a.get('periodicity') and not a.get('block_size')]
+        if movable:
+            moved = copy.deepcopy(spec)
+            nm_ = movable[int(rng.integers(len(movable)))]['name']
+            a_ = [x for x in moved['assets'] if x['name'] == nm_][0]
+            ns_, ne_, _k = gen.gen_window(rng, spec['grid'], kinds=['inside', 'inside', 'straddle_start', 'straddle_end', 'start_only', 'end_only', 'none'])
+            if (ns_, ne_) != (a_.get('start'), a_.get('end')):
+                a_['start'] = ns_; a_['end'] = ne_
+                for tk_ in ('min_take', 'max_take'):
+                    a_.pop(tk_, None)
+                rm = flow.run_portfolio(moved, timegrid=r1.built.timegrid)
+                if not rm.ok:
+                    rf_ = flow.run_portfolio(moved, do_optimize=False)
+                    if rf_.ok:
+                        case.check('window.moved_window_on_used_grid_works', False, asset=a_['name'], error=flow.describe_error(rm))
+                else:
+                    case.feature('moved_window_on_used_grid')
+                    check_windows(case, moved, rm, ck)
     # (a') "window clipped to the optimisation horizon": stating the part of a window that lies outside the horizon changes nothing - the same
     # portfolio with every overhanging start / end replaced by the horizon's gives the identical problem (the start of an asset with its own
     # coarser frequency anchors its coarse steps and is left as it is)
